@@ -66,7 +66,7 @@ var impWants = []impWant{
 	{dir: "align", pkg: "align",
 		funcs: []string{"SubstitutionMatrix.Get", "decideOnStep", "traceAlignmentSteps", "Global",
 			"argmax", "traceAlignmentStepsLocal", "Local",
-			"init@pam120.go#0", "init@pam160.go#0", "init@pam250.go#0", "init@blosum45.go#0", "init@blosum62.go#0", "init@blosum80.go#0"}},
+			"init@pam120.go#0", "init@pam160.go#0", "init@pam250.go#0", "init@blosum45.go#0", "init@blosum62.go#0", "init@blosum80.go#0", "init@levenshtein.go#0"}},
 	{dir: "align", pkg: "alignf", funcs: []string{"SubstitutionMatrix.Symmetrical"}, floatAs: "F"},
 	{dir: "trie", pkg: "trie", funcs: []string{"New", "Trie.Add", "Trie.Has", "Trie.Delete"}, heap: "Trie"},
 	{dir: "formats/fasta", pkg: "fasta", funcs: []string{"Fasta.Write", "Fasta.MarshalText"}, join: true},
@@ -78,7 +78,7 @@ var impWants = []impWant{
 		ext: []impExt{{name: "parseLine", coq: "imp_sam_parseLine", oracle: true, errBool: true}}, extRecs: map[string]string{"SAM": "sam"}},
 	{dir: "formats/smtext", pkg: "smtext", funcs: []string{"extractSingleChar", "ReadNCBI"}, errZ: true, floatAs: "F"},
 	{dir: "formats/bed", pkg: "bed", stops: true, funcs: []string{"BED.Write", "BED.MarshalText", "parseLine", "reader.read", "Reader"}, join: true, errZ: true},
-	{dir: "formats/newick", pkg: "newick", stops: true, funcs: []string{"quoted", "nameFromText", "nameToText", "Node.traverse", "Node.newick", "Node.MarshalText", "Node.Write"}, floatAs: "F"},
+	{dir: "formats/newick", pkg: "newick", stops: true, funcs: []string{"quoted", "nameFromText", "nameToText", "Node.traverse", "Node.PreOrder", "Node.PostOrder", "Node.newick", "Node.MarshalText", "Node.Write"}, floatAs: "F"},
 	{dir: "formats/newick", pkg: "newickrd", stops: true, heap: "Node", heapRec: true, funcs: []string{"reader.nextToken", "quoted", "nameFromText", "reader.read", "Reader"}, errZ: true, floatAs: "F"},
 }
 
@@ -2923,7 +2923,46 @@ func (t *impTr) function(fd *ast.FuncDecl, coqName string) *impFn {
 			}
 		}
 	}
-	if t.yield == nil {
+	// a wrapper that returns another translated iterator:  return n.traverse(true)
+	wrapper := false
+	if len(body) == 1 && t.yield == nil {
+		if ret, ok := body[0].(*ast.ReturnStmt); ok && len(ret.Results) == 1 {
+			if call, ok := ret.Results[0].(*ast.CallExpr); ok {
+				if fn, ok := t.fns[t.calleeObj(call.Fun)]; ok && fn.iter && !fn.stream && !fn.heap {
+					var pre []opener
+					args := []string{}
+					if t.stopMode {
+						args = append(args, "stop__")
+					}
+					if fn.fuel {
+						t.fuel = true
+						args = append(args, "fuel")
+					}
+					if fn.oracle {
+						t.oracle = true
+						args = append(args, "o")
+					}
+					if sel, ok := call.Fun.(*ast.SelectorExpr); ok {
+						if sl, ok := t.info.Selections[sel]; ok && sl.Kind() == types.MethodVal {
+							args = append(args, t.ex(sel.X, &pre))
+						}
+					}
+					for _, a := range call.Args {
+						args = append(args, t.ex(a, &pre))
+					}
+					name := fn.name
+					if t.stopMode {
+						name += "_stop"
+					}
+					text = wrapOpeners(pre, name+" "+strings.Join(args, " "))
+					ys := sig.Results().At(0).Type().Underlying().(*types.Signature).Params().At(0).Type().(*types.Signature)
+					rt = "(list " + t.ty(ys.Params().At(0).Type()) + ")"
+					wrapper = true
+				}
+			}
+		}
+	}
+	if t.yield == nil && !wrapper {
 		// named results are declared with their zero values
 		var pre []opener
 		var resNames []string
@@ -2958,7 +2997,7 @@ func (t *impTr) function(fd *ast.FuncDecl, coqName string) *impFn {
 			text = wrapOpeners(pre, t.block(body, end, nil))
 		}
 	}
-	if t.yield == nil && t.writer == nil {
+	if t.yield == nil && t.writer == nil && !wrapper {
 		var pre []opener
 		var resNames []string
 		if sig.Results().Len() > 0 && sig.Results().At(0).Name() != "" {
@@ -3055,7 +3094,7 @@ func (t *impTr) function(fd *ast.FuncDecl, coqName string) *impFn {
 	fn.stream = t.stream
 	fn.heap = t.fnHeap
 	fn.sty = t.streamTy
-	fn.iter = t.yield != nil
+	fn.iter = t.yield != nil || wrapper
 	fn.recv = t.recv != ""
 	fuel := ""
 	if t.stopMode {
